@@ -612,13 +612,30 @@ def _classes_of_model():
         return None
 
 
+def driver_usable(ctx):
+    """The driver can be compared when the Lean build succeeded — or, when the build failed for another reason
+    (a theorem no longer checks, another component's extractor), when the executable is newer than every source
+    it is made of, the regenerated constants included."""
+    drv = C.drv_path("accept")
+    if not os.path.exists(drv):
+        return False
+    if getattr(ctx, "lean_ok", True):
+        return True
+    try:
+        srcs = [os.path.join(C.LEAN, *p) for p in (("Cjet", "Accept.lean"), ("Cjet", "Drv", "Accept.lean"), ("Cjet", "Basic.lean"),
+                                                   ("Cjet", "Generated", "Accept.lean"), ("DrvAccept.lean",))]
+        return os.path.getmtime(drv) >= max(os.path.getmtime(p) for p in srcs)
+    except OSError:
+        return False
+
+
 def run_accept_tie(ctx, out):
     t0 = time.time()
     cov = out.coverage
     binp = C.cc_build("accept", [os.path.join(C.ROOT, "harness", "comp", "accept.c")], link_flags=WRAP)
-    have_model = bool(getattr(ctx, "lean_ok", True)) and os.path.exists(C.drv_path("accept"))
+    have_model = driver_usable(ctx)
     if not have_model:
-        out.notes.append("accept: model driver not available (Lean build failed): property clauses are evaluated on the implementation only")
+        out.notes.append("accept: model driver not available or stale (Lean build failed): property clauses are evaluated on the implementation only")
     judge = Judge(binp, have_model)
     c = consts()
 
@@ -701,7 +718,9 @@ def run_accept_tie(ctx, out):
         for scripts, impl, model in ex.map(job, range(n_chunks)):
             digest(scripts, impl, model)
 
-    for key, sc in reported:
+    # property failures first; a pure model/code difference is filed only when no clause fails anywhere
+    with_input = [r for r in reported if r[0][0]]
+    for key, sc in (with_input or reported):
         report(out, judge, sc, ctx, "accept tie")
 
     samples = [s.line() for s in (directed[1], directed[len(directed) // 3], enum[len(enum) // 2], random_script(C.rng("accept", 0)),
